@@ -136,7 +136,7 @@ def run(pid, tier, seed, replay=None):
             scripts = [vlib.read(replay)]
             tfs = corerun.run_scripts(exe, scripts, sc, tag="replay")
         else:
-            budget = 200 if tier == "quick" else 5000
+            budget = 200 if tier == "quick" else 1200
             for name, body in small_scenarios(pid).items():
                 for method in (("epoll", "poll") if tier == "thorough" else ("epoll",)):
                     s, t, _n, complete = enumerate_schedules(exe, sc, name, body, method + " " + HDR, [], budget, pid + "e")
@@ -145,7 +145,7 @@ def run(pid, tier, seed, replay=None):
                     if complete:
                         exhausted.append("%s/%s" % (name, method))
             rs = [random_work_script(rnd, "%sr%d.%d" % (pid, seed, i), pid, rnd.choice(["epoll", "epoll-timerfd", "poll", "ppoll"]))
-                  for i in range(500 if tier == "quick" else 10000)]
+                  for i in range(500 if tier == "quick" else 3000)]
             scripts += rs
             tfs += corerun.run_scripts(exe, rs, sc, tag="rand")
         idx = corerun.script_index(scripts)
